@@ -141,7 +141,7 @@ func checkFirstUse(c firstUse) (h.Info, error) {
 
 func TestFirstUse(t *testing.T) {
 	h.Run(t, h.Sub[firstUse]{
-		Prop: "C14", Name: "concurrent-first-use-child-process", N: 48,
+		Prop: "C14", Name: "concurrent-first-use-child-process", N: 48, MaxN: 4000,
 		Gen: func(t *rapid.T) firstUse {
 			var c firstUse
 			same := h.Pick(t, "same", 1, 1) == 1
